@@ -3,7 +3,7 @@
 Observe: (a) a scripted AbstractValidationModule written in the harness - its k-th call
 returns (stop_k, crit_k, improve_k) from arrays and logs (k, digest(params)) through
 jax.debug.callback - run inside the real jinns.solve; (b) the real ValidationLoss called
-directly (compiled) on value sequences chosen by the harness (alphabet {1,2,3}: ties
+directly (compiled) on value sequences chosen by the harness (alphabet {1,2,3,NaN}: ties
 included); (c) the real ValidationLoss inside solve with its own generators.
 Oracle: models.ValidationAutomaton + the reference loop's post-update parameters.
 """
@@ -16,7 +16,7 @@ from .. import fields, guard, nets, refloop
 PROPERTY = "C19"
 LEVEL = "exploration"
 RULE = ("(a) all scripts of length <= L over {stop, improve}^2 per call (L=3 quick, 4 thorough) x period P "
-        "(2 quick; 1,2,3 thorough); (b) all validation-loss sequences of length 5 over {1,2,3} x patience {0,1,2} x "
+        "(2 quick; 1,2,3 thorough); (b) all validation-loss sequences of length 5 over {1,2,3,NaN} (quick: at most one NaN) x patience {0,1,2} x "
         "early stopping enabled/disabled by direct compiled calls; (c) ValidationLoss inside solve with its own "
         "data / parameter / observation generators x period x patience; (d) the same scripted / built-in runs with a NaN "
         "update injected (user optax transformation) at an iteration where validation is invoked, or just before it: "
@@ -26,12 +26,15 @@ ASSUMPTIONS = [
     "the scripted module is exact about what it returns; its log is delivered by jax.debug.callback (events are keyed by call index, so delivery order is irrelevant)",
     "after the first stop request of a directly driven ValidationLoss the stop output is not checked (the statement speaks of the first such invocation)",
     "best parameters when no call flagged an improvement: the initial parameters",
+    "a NaN validation loss is not a strict new minimum: no improvement, one more non-improving invocation, the running minimum is kept",
 ]
 TIMEOUT = {"quick": 2400, "thorough": 7200}
 MIN_COUNTERS = {"quick": {"scripted_runs": 80, "validation_calls_logged": 120, "builtin_direct_calls": 3000, "builtin_in_solve_runs": 8,
-                          "runs_stopped_early": 20, "validation_calls_on_nan_params": 8},
-                "thorough": {"scripted_runs": 900, "validation_calls_logged": 1200, "builtin_direct_calls": 7000,
-                             "builtin_in_solve_runs": 60, "runs_stopped_early": 200, "validation_calls_on_nan_params": 30}}
+                          "runs_stopped_early": 20, "validation_calls_on_nan_params": 8,
+                          "builtin_direct_calls_with_nan_loss": 1000},
+                "thorough": {"scripted_runs": 900, "validation_calls_logged": 1200, "builtin_direct_calls": 25000,
+                             "builtin_in_solve_runs": 60, "runs_stopped_early": 200, "validation_calls_on_nan_params": 30,
+                             "builtin_direct_calls_with_nan_loss": 5000}}
 _LOG = []
 
 
@@ -70,7 +73,7 @@ def gen_cases(tier, seed):
     seqs = list(itertools.product((1, 2, 3), repeat=5))
     for pat in (0, 1, 2):
         for en in (True, False):
-            cases.append(dict(mode="direct", patience=pat, enabled=en, seed=seed, cost=2.0))
+            cases.append(dict(mode="direct", patience=pat, enabled=en, seed=seed, tier=tier, cost=4.0))
     k = 0
     for P in ([1, 2] if q else [1, 2, 3]):
         for pat in (0, 1, 2):
@@ -293,7 +296,10 @@ def run_direct(case, rec):
     vl0 = ValidationLoss(loss=loss, validation_data=data, call_every=1, early_stopping=en, patience=pat)
     step = jax.jit(lambda v, p: v(p))
     sig = "builtin/direct"
-    for seq in itertools.product((1, 2, 3), repeat=5):
+    nan = float("nan")
+    seqs = [sq for sq in itertools.product((1, 2, 3, nan), repeat=5)
+            if sum(1 for x in sq if x != x) <= (1 if case.get("tier") == "quick" else 5)]
+    for seq in seqs:
         vl = vl0
         best, c = np.inf, 0
         stopped = False
@@ -309,7 +315,9 @@ def run_direct(case, rec):
             else:
                 c += 1
             label = "sequence %s patience=%d enabled=%s call %d" % (list(seq), pat, en, j)
-            if abs(float(value) - v) > 1e-12:
+            if v != v:
+                rec.count("builtin_direct_calls_with_nan_loss")
+            if (float(value) != float(value)) != (v != v) or abs(float(value) - v) > 1e-12:
                 rec.violation(sig + "/criterion-value", "%s: returned criterion %r, the loss on its own batch is %r" % (label, float(value), v))
             if bool(improve) != exp_imp:
                 rec.violation(sig + "/improvement-flag/%s" % ("tie" if v == best and not exp_imp else "value"),
@@ -320,8 +328,8 @@ def run_direct(case, rec):
             if exp_stop:
                 stopped = True
         if len(set(seq)) < 5:
-            rec.nontrivial((seq, pat, en))
-    rec.set_sample(mode="direct", patience=pat, enabled=en, sequences=3 ** 5)
+            rec.nontrivial((tuple(str(x) for x in seq), pat, en))
+    rec.set_sample(mode="direct", patience=pat, enabled=en, sequences=len(seqs))
 
 
 def run_insolve(case, rec):
